@@ -343,16 +343,25 @@ def run(ctx) -> None:
                       f"`{norm_text(call)[:80]}` does not pass (reciprocal-space sampling, energy) to {helper.name}",
                       key_detail="delegate")
             continue
-        if kind[0] != "tuple" or len(kind[1]) < 1:
-            raise AnalysisError(f"{g.qualname}: result is not an explicit tuple")
-        elems = kind[1]
-        # base B and wavelength term L from element 0
-        first = reduce_radicals(elems[0], rad)
-        idx0 = [a for a in first.atoms() if a.endswith("[0]")]
-        if len(idx0) != 1:
-            raise AnalysisError(f"{g.qualname}: cannot find the sampling factor of element 0 in {first.key()}")
-        base = idx0[0][:-3]
-        L = first / (RF.atom(idx0[0]) * thousand)
+        if kind[0] == "map":
+            # tuple(d * λ * 1e3 for d in <sampling>): one generic element
+            src = kind[1].single_atom()
+            if src is None:
+                raise AnalysisError(f"{g.qualname}: the comprehension does not run over a sampling attribute")
+            elems, first = [kind[2]], reduce_radicals(kind[2], rad)
+            base, factor_atoms = src, [ELEM]
+        elif kind[0] == "tuple" and len(kind[1]) >= 1:
+            elems = kind[1]
+            # base B and wavelength term L from element 0
+            first = reduce_radicals(elems[0], rad)
+            idx0 = [a for a in first.atoms() if a.endswith("[0]")]
+            if len(idx0) != 1:
+                raise AnalysisError(f"{g.qualname}: cannot find the sampling factor of element 0 in {first.key()}")
+            base = idx0[0][:-3]
+            factor_atoms = [f"{base}[{i}]" for i in range(len(elems))]
+        else:
+            raise AnalysisError(f"{g.qualname}: result is not a tuple of products")
+        L = first / (RF.atom(factor_atoms[0]) * thousand)
         la = L.single_atom()
         lam_ok, lam_txt = False, L.key()
         if la is not None and la.startswith(e2w.qualname + "("):
@@ -374,8 +383,8 @@ def run(ctx) -> None:
         if lam_ok:
             for i, el in enumerate(elems):
                 _verdict(ctx, "R-ANGULAR", f"{g.qualname}:element[{i}]", g.loc(ret), el,
-                         RF.atom(f"{base}[{i}]") * L * thousand, rad, f"element {i}", f"{base}[{i}]·λ·10³",
-                         f"element{i}")
+                         RF.atom(factor_atoms[i]) * L * thousand, rad, f"element {i}",
+                         f"{base}[{i if kind[0] == 'tuple' else 'i'}]·λ·10³", f"element{i}")
     ctx.require(n_methods >= 2, f"only {n_methods} angular_sampling properties could be analysed")
     # the wavelength used by Accelerator (end of every wavelength property chain)
     acc = repo.method(MOD, "Accelerator", "wavelength")
